@@ -2347,6 +2347,7 @@ impl Typer {
             }
             common_defs::UnaryOp::Neg => {
                 self.push_constraint(Constraint::TypeEqual(expr_ty.clone(), expr_ty.clone()));
+                self.operand_checks.push(("-", expr_ty.clone(), false));
                 tast::Expr::EUnary {
                     op,
                     expr: Box::new(expr_tast),
@@ -2387,12 +2388,14 @@ impl Typer {
             common_defs::BinaryOp::Add => {
                 self.push_constraint(Constraint::TypeEqual(lhs_ty.clone(), ret_ty.clone()));
                 self.push_constraint(Constraint::TypeEqual(rhs_ty.clone(), ret_ty.clone()));
+                self.operand_checks.push(("+", lhs_ty.clone(), true));
             }
             common_defs::BinaryOp::Sub
             | common_defs::BinaryOp::Mul
             | common_defs::BinaryOp::Div => {
                 self.push_constraint(Constraint::TypeEqual(lhs_ty.clone(), ret_ty.clone()));
                 self.push_constraint(Constraint::TypeEqual(rhs_ty.clone(), ret_ty.clone()));
+                self.operand_checks.push((op.symbol(), lhs_ty.clone(), false));
             }
             common_defs::BinaryOp::And | common_defs::BinaryOp::Or => {
                 self.push_constraint(Constraint::TypeEqual(lhs_ty.clone(), tast::Ty::TBool));
@@ -2401,10 +2404,11 @@ impl Typer {
             common_defs::BinaryOp::Less
             | common_defs::BinaryOp::Greater
             | common_defs::BinaryOp::LessEq
-            | common_defs::BinaryOp::GreaterEq
-            | common_defs::BinaryOp::Eq
-            | common_defs::BinaryOp::NotEq => {
-                // Comparison operators: lhs and rhs must have same type (numeric types)
+            | common_defs::BinaryOp::GreaterEq => {
+                self.push_constraint(Constraint::TypeEqual(lhs_ty.clone(), rhs_ty.clone()));
+                self.operand_checks.push((op.symbol(), lhs_ty.clone(), true));
+            }
+            common_defs::BinaryOp::Eq | common_defs::BinaryOp::NotEq => {
                 self.push_constraint(Constraint::TypeEqual(lhs_ty.clone(), rhs_ty.clone()));
             }
         }
